@@ -15,14 +15,15 @@ import (
 )
 
 type e4Fault struct {
-	Kind  string `json:"kind"`            // cut | cutType | refuse | silentConnack | dialErr | dropAck | goSilent | garbage
-	Conn  int    `json:"conn,omitempty"`  // connection = dial attempt number (1-based)
-	Pkt   int    `json:"pkt,omitempty"`   // cut/goSilent/garbage: j-th client packet on that connection (1-based, CONNECT is 1)
-	Type  int    `json:"type,omitempty"`  // cutType: client packet type; dropAck: the acknowledgement type withheld
-	Nth   int    `json:"nth,omitempty"`   // cutType/dropAck: n-th packet of that type on that connection (1-based)
-	After bool   `json:"after,omitempty"` // cut*: false = request lost (Write fails), true = processed, acknowledgement lost
-	Code  int    `json:"code,omitempty"`  // refuse: CONNACK return code 1..5
-	fired bool
+	Kind    string `json:"kind"`              // cut | cutType | refuse | silentConnack | dialErr | dropAck | goSilent | garbage
+	Conn    int    `json:"conn,omitempty"`    // connection = dial attempt number (1-based)
+	Pkt     int    `json:"pkt,omitempty"`     // cut/goSilent/garbage: j-th client packet on that connection (1-based, CONNECT is 1)
+	Type    int    `json:"type,omitempty"`    // cutType: client packet type; dropAck: the acknowledgement type withheld
+	Nth     int    `json:"nth,omitempty"`     // cutType/dropAck: n-th packet of that type on that connection (1-based)
+	After   bool   `json:"after,omitempty"`   // cut*: false = request lost (Write fails), true = processed, acknowledgement lost
+	Code    int    `json:"code,omitempty"`    // refuse: CONNACK return code 1..5; dialErr: flavour of the error
+	DelayUs int    `json:"delayUs,omitempty"` // dialErr: the dial fails only after this long (a connect timeout, a slow resolver)
+	fired   bool
 }
 
 func (f e4Fault) String() string {
@@ -472,6 +473,12 @@ func (d *vdialer) DialContext(ctx context.Context) (*BaseClient, error) {
 	f := d.b.fault(func(f *e4Fault) bool { return f.Kind == "dialErr" && f.Conn == k })
 	d.b.mu.Unlock()
 	if f != nil {
+		if f.DelayUs > 0 {
+			select {
+			case <-time.After(time.Duration(f.DelayUs) * time.Microsecond):
+			case <-ctx.Done():
+			}
+		}
 		err := errVDial
 		switch f.Code {
 		case 1:
